@@ -430,7 +430,7 @@ func c12Import(run *ev.Run, chain *allChain, seed string, mode importMode, state
 			}
 		}()
 		qctx := ctxB.WithBlockHeight(height - 1)
-		fams := map[string]func(*rig.Rig, sdk.Context) []string{"htlc": htlcQueueCheck, "service": serviceQueueCheck, "random": randomQueueCheck}
+		fams := map[string]func(*rig.Rig, sdk.Context) []string{"htlc": htlcQueueCheck, "service": serviceQueueCheck, "random": randomQueueCheck, "oracle": oracleIndexCheck}
 		if !mode.ZeroHeight { // farm keeps absolute heights across a zero-height export (listed finding)
 			fams["farm"] = farmQueueCheck
 		}
